@@ -77,6 +77,11 @@ CLAIMS["C15"] = ("symbolic execution of the real CMapDB._load_data and ImageWrit
          "directories, and the path chosen for an exported image lies directly inside the output directory, was reported non-existing and is the unique first free candidate - confirmed over all paths for "
          "every name of length <= 4 over the alphabet '/', '.', NUL, backslash, letters, ':', '~'; CrossHair searches names of length <= 5 over all code points within its time budget (no counterexample; not a confirmation).",
          "4.C15")
+CLAIMS["C11"] = ("symbolic execution (symx; strings as symbolic choices over a hostile alphabet) of the real TextConverter / XMLConverter.receive_layout and utils.enc",
+         "For every glyph text, font name and figure name of length <= 3 over an alphabet of XML-special, quote, control, non-ASCII and ordinary characters: the XML output parses with an independent XML parser and "
+         "reproduces page, boxes, figure name, fonts, sizes and character data of the tree; the text output is the in-order concatenation with a line break per box and a form feed per page; a binary sink with each "
+         "listed codec holds the same characters as a text sink; enc() round-trips through html.unescape without raw markup. Exhaustive over the alphabet bound (confirmed over all paths).",
+         "4.C11")
 NA = {}
 def main():
     props = [json.loads(l) for l in open(os.path.join(ROOT, "properties.jsonl"))]
